@@ -80,6 +80,7 @@ void vp_seq()
         if (only_handles) vp_assert(vp_tab_count(0) == objs0, 1300);
     }
     delete g_l;                         // all handles are released: everything must be gone now
+    vp_log(1301, vp_tab_count(0) * 100 + vp_tab_count(1));
     vp_assert(vp_tab_count(0) == 0, 1301);   // every element destroyed (exactly once: the tables assert double destroy)
 #ifndef STD_ALLOC
     vp_assert(vp_tab_count(1) == 0, 1302);   // every node / bookkeeping record deallocated
